@@ -156,8 +156,19 @@ def run(repo, rep, tier):
     add_pywbem_dynamic(res, repo)
     by_elem, by_func = required_attrs_table(repo)
 
+    # names bound to the request's parameter dictionary in do_POST
+    req_dicts = set()
+    for n in walk_no_nested(post.node):
+        if isinstance(n, ast.Assign) and isinstance(n.targets[0], ast.Tuple) \
+                and isinstance(n.value, ast.Call) and \
+                dotted(n.value.func) == 'self.parse_export_request':
+            req_dicts.add(norm(n.targets[0].elts[-1]))
+
     def key_receiver(sub, func):
         v = sub.value
+        if func.file == LS and func.name == 'do_POST' and \
+                norm(v) in req_dicts:
+            return True
         return func.file == LS and isinstance(v, ast.Subscript) and \
             isinstance(v.slice, ast.Constant) and v.slice.value == 1
 
@@ -165,6 +176,8 @@ def run(repo, rep, tier):
         def _key_guarded(self, sub, key, facts, root):
             if EscapeAnalysis._key_guarded(self, sub, key, facts, root):
                 return True
+            if not isinstance(sub.value, ast.Subscript):
+                return False
             bt = norm(sub.value.value)
             for t, pol in facts:
                 if isinstance(t, ast.Compare) and len(t.ops) == 1 and \
@@ -184,6 +197,7 @@ def run(repo, rep, tier):
 
     ea = EA(repo, res, key_receiver=key_receiver,
             conv_guard=conv_guard_factory(repo), esc_filter=esc_filter)
+    ea.none_get_receivers = ('self.headers',)
     per = h.methods.get('parse_export_request')
     ea.solve([post, per])
     r2.functions.update([post.fq, per.fq])
@@ -211,6 +225,60 @@ def run(repo, rep, tier):
           {'parse_export_request_may_raise': sorted(pes)})
     r2.notes.append('functions analysed: %d; calls %s' % (
         len(ea.analysed), ea.call_stats))
+    # ---- R5: the body read is bounded below ---------------------------------
+    # rfile.read(n) with a negative n reads until the peer closes the
+    # connection: the handler hangs and no response is sent.  The length
+    # variable comes from int(header) (any integer) or from the -1 sentinel of
+    # the except branch, so a guard `n < K: respond; return` with K >= 0 must
+    # dominate the read.
+    r5 = rep.rule('C17.R5', 'the request body is read with a length proven '
+                  'non-negative')
+    r5.functions.add(post.fq)
+    from ..cfg import stmt_facts as _sf
+    pf = _sf(post.node)
+    for st, (fs, _) in pf.items():
+        for c in ast.walk(st) if not isinstance(
+                st, (ast.If, ast.For, ast.While, ast.Try, ast.With)) else []:
+            if isinstance(c, ast.Call) and \
+                    dotted(c.func) in ('self.rfile.read',) and c.args:
+                r5.sites += 1
+                a = c.args[0]
+                lower = None
+                for t, pol in fs:
+                    if isinstance(t, ast.Compare) and len(t.ops) == 1 and \
+                            norm(t.left) == norm(a) and \
+                            isinstance(t.comparators[0], (ast.Constant,
+                                                          ast.UnaryOp)):
+                        try:
+                            k = ast.literal_eval(t.comparators[0])
+                        except ValueError:
+                            continue
+                        if not isinstance(k, int):
+                            continue
+                        if isinstance(t.ops[0], ast.Lt) and not pol:
+                            lower = max(lower, k) if lower is not None else k
+                        elif isinstance(t.ops[0], ast.LtE) and not pol:
+                            lower = max(lower, k + 1) \
+                                if lower is not None else k + 1
+                        elif isinstance(t.ops[0], ast.GtE) and pol:
+                            lower = max(lower, k) if lower is not None else k
+                        elif isinstance(t.ops[0], ast.Gt) and pol:
+                            lower = max(lower, k + 1) \
+                                if lower is not None else k + 1
+                ok = lower is not None and lower >= 0
+                r5.ob(ok, 'do_POST:' + norm(c),
+                      {'read': norm(c), 'proven_lower_bound': lower})
+                if not ok:
+                    rep.finding(r5, post.qualname, norm(c), 'unbounded-read',
+                                LS, c.lineno,
+                                'the length passed to rfile.read() is not '
+                                'proven >= 0 on this path (lower bound: %s): '
+                                'a negative length (e.g. the -1 sentinel for '
+                                'an invalid Content-Length) reads until the '
+                                'peer closes the connection - no response is '
+                                'sent' % lower)
+    if r5.sites == 0:
+        raise AnalysisError('do_POST: rfile.read() not found')
     # ---- R3 ---------------------------------------------------------------
     she = h.methods['send_http_error']
     r3.functions.update([she.fq, post.fq])
